@@ -56,6 +56,33 @@ type Observer interface {
 var traceOn = os.Getenv("STK_TRACE") != ""
 
 // traceBlock prints a block the way the oracles see it (STK_TRACE=1; diagnosis only).
+// mixtures returns every combination of old and new option values except the all-old one.
+func mixtures(a, b StakingOpts) []StakingOpts {
+	var out []StakingOpts
+	for m := 1; m < 8; m++ {
+		o := a
+		if m&1 != 0 {
+			o.Min = b.Min
+		}
+		if m&2 != 0 {
+			o.Top = b.Top
+		}
+		if m&4 != 0 {
+			o.Maturity = b.Maturity
+		}
+		dup := o.Equal(a)
+		for _, x := range out {
+			if x.Equal(o) {
+				dup = true
+			}
+		}
+		if !dup {
+			out = append(out, o)
+		}
+	}
+	return out
+}
+
 func traceBlock(c *BlockCtx) {
 	out := run.Quiet()
 	fmt.Fprintf(out, "---- h=%d time=%s absent=%v updates=%s adv=%v opts=%v\n", c.H, c.Block.Time.Format("15:04:05"), c.Step.Spec.Absent, sim.FmtUpdates(c.Res.Updates), c.AdvErr, c.EndOpts)
@@ -190,8 +217,13 @@ func Execute(h *run.H, tr *hist.Trace, draw func(w *hist.World, last *View, i in
 		}
 		c.EndOpts = []StakingOpts{base}
 		if finalizeTx && !c.Cur.Staking.Equal(base) {
-			c.EndOpts = append(c.EndOpts, c.Cur.Staking)
-			c.TxOpts = append(c.TxOpts, c.Cur.Staking)
+			// a delivered PROPOSAL_FINALIZE changed the options inside the block; the block-end hook may have finalised
+			// another proposal after the election: what was in force at a given moment is the old or the new value of
+			// each option, in any combination
+			for _, o := range mixtures(base, c.Cur.Staking) {
+				c.EndOpts = append(c.EndOpts, o)
+				c.TxOpts = append(c.TxOpts, o)
+			}
 		}
 		if traceOn {
 			traceBlock(c)
